@@ -195,7 +195,7 @@ def split_items(body, derive):
         lines.pop()
     items, cur = [], []
     for ln in lines:
-        if ln == derive or ln.startswith("pub const ") or ln.startswith("impl "):
+        if ln == derive or ln.startswith("pub const ") or re.match(r'impl(<[^>]*>)? (TryFrom|WireSize)\b', ln):
             if cur:
                 items.append("\n".join(cur) + "\n")
             cur = [ln]
